@@ -1,3 +1,4 @@
 SPECIFICATION Spec
 VIEW View
 INVARIANT WellFormed
+PROPERTY ErrKeeps
